@@ -74,6 +74,78 @@ def check_arch(ctx, dump, arch, rid_prefix="C07", returns=False):
     return n_fn
 
 
+# instruction syntax literals that name a register the instruction reads implicitly: arch -> literal -> the fixed registers (all widths) that alias it
+IMPLICIT_REG = {"x86_64": {"cl": ("rcx", "ecx", "cx", "cl")}}
+
+
+def implicit_operand_windows(ctx, dump, arch, rid):
+    """An instruction that reads a fixed register without declaring it (shift by cl) is invisible to
+    liveness: after `context.move(rcx, count)` the allocator believes rcx is dead.  The only protection is
+    that nothing which DEFINES a virtual register sits between the load of the fixed register and the
+    consuming instruction (a register defined there may be assigned rcx).  Checked per pattern function."""
+    from ..core import walk_no_nested, last_name
+    project = ctx.project
+    lits = IMPLICIT_REG.get(arch, {})
+    a = dump["archs"][arch]
+    implicit = {}
+    for ins in a["instructions"]:
+        for e in ins["syntax"]:
+            if isinstance(e, str) and e.strip() in lits:
+                implicit[ins["name"]] = e.strip()
+    ctx.need(implicit, "%s: no instruction with an implicit register literal found" % arch)
+    n = 0
+    seen = set()
+    for pat in a["patterns"]:
+        key = (pat["file"], pat["method"], pat["line"])
+        if key in seen:
+            continue
+        seen.add(key)
+        fn = isamod.find_pattern_function(project, pat)
+        if fn is None:
+            continue
+        site = "%s:%s" % (fn._module.rel, fn.name)
+        stmts = [x for x in walk_no_nested(fn) if isinstance(x, ast.stmt) and x is not fn]
+        stmts.sort(key=lambda x: (x.lineno, x.col_offset))
+        for i, st in enumerate(stmts):
+            if not (isinstance(st, ast.Expr) and isinstance(st.value, ast.Call) and last_name(st.value) == "emit" and st.value.args and isinstance(st.value.args[0], ast.Call)):
+                continue
+            cname = (norm(st.value.args[0].func)).split(".")[-1]
+            if cname not in implicit:
+                continue
+            fam = lits[implicit[cname]]
+            n += 1
+            # walk back to the load of the fixed register
+            j, between, load = i - 1, [], None
+            while j >= 0:
+                b = stmts[j]
+                if isinstance(b, ast.Expr) and isinstance(b.value, ast.Call) and last_name(b.value) == "move" and b.value.args and norm(b.value.args[0]) in fam:
+                    load = b
+                    break
+                between.append(b)
+                j -= 1
+            ctx.ob(rid, site, "%s reads `%s` implicitly: the pattern loads %s with context.move() before emitting it" % (cname, implicit[cname], "/".join(fam)), load is not None, construct="implicit-loaded:%s" % cname, node=st)
+            if load is None:
+                continue
+
+            def defines_vreg(b):
+                if isinstance(b, ast.Assign) and isinstance(b.value, ast.Call) and last_name(b.value) == "new_reg":
+                    return False   # allocation of a name, no definition yet
+                if isinstance(b, ast.Expr) and isinstance(b.value, ast.Call) and last_name(b.value) == "move" and b.value.args and norm(b.value.args[0]) in FIXED_NAMES.get(arch, ()):
+                    return False   # another fixed register is loaded
+                return True
+            bad = [b for b in between if defines_vreg(b)]
+            declared = any(("add_use(%s)" % r) in norm(x) or ("uses=(%s" % r) in norm(x) or ("uses=[%s" % r) in norm(x) for x in stmts[i + 1:] for r in fam)
+            if declared:
+                bad = []   # the read is declared after the instruction: the register is live across the window
+            ctx.ob(rid, site, "nothing that defines a virtual register stands between the load of %s and %s (the implicit read is not declared, so the allocator considers %s free there and may assign it to a register defined in between)"
+                   % (norm(load.value.args[0]), cname, norm(load.value.args[0])), not bad, construct="implicit-window:%s" % cname, node=bad[0] if bad else st,
+                   detail="; ".join(" ".join(norm(b).split())[:60] for b in bad))
+    return n
+
+
+FIXED_NAMES = {"x86_64": ("rax", "rbx", "rcx", "rdx", "rsi", "rdi", "eax", "ebx", "ecx", "edx", "ax", "bx", "cx", "dx", "al", "bl", "cl", "dl", "r8", "r9", "r10", "r11")}
+
+
 def sibling_flags(ctx, dump, arch, rid):
     """instructions of one arch with identical syntax operand classes and
     token layout, produced by one factory (same mnemonic family), carry the
@@ -100,6 +172,8 @@ def run(ctx):
     for arch in archs:
         total += check_arch(ctx, dump, arch)
     ctx.extra["pattern_functions_analysed"] = total
+    ctx.rule("C07.R3", "an undeclared (implicit) fixed-register operand is loaded immediately before the instruction that reads it", floor=20)
+    ctx.extra["implicit_operand_sites"] = implicit_operand_windows(ctx, dump, "x86_64", "C07.R3")
     # R2: flag sanity + sibling vectors
     for arch in archs:
         a = dump["archs"][arch]
